@@ -181,17 +181,30 @@ def do_op(ch, f, fwd, frames):
         chunks = []
         err = "-"
         kwargs = {} if m is None else {"max": m}
-        it = ch.read_iter(timeout=t, **kwargs)
+        # an iteration without byte limit and without timeout carries no state of its own between two steps: such
+        # `ri` ops of one case go on with ONE generator (kept in `frames`), so that whatever other ops do in between —
+        # registering a death string, changing the prompt — happens between two steps of a running iteration
+        keep = m is None and t is None and kk is not None
+        it = frames.get("it") if keep else None
+        if it is None:
+            it = ch.read_iter(timeout=t, **kwargs)
+        alive = True
         try:
             while kk is None or len(chunks) < kk:
                 try:
                     chunks.append(bytes(next(it)))
                 except StopIteration:
+                    alive = False
                     break
         except (Exception, mockio.Hang) as e:
             err = exc_tag(e)
+            alive = False
         finally:
-            it.close()
+            if keep and alive:
+                frames["it"] = it
+            else:
+                frames.pop("it", None)
+                it.close()
         return "c:" + lst(hx(c) for c in chunks) + ":" + err
     if k == "rl":
         return "t:" + chars(ch.readline(timeout=secs(f[2]), lineending=unhx(f[1])))
